@@ -526,6 +526,7 @@ class Compilation:
                 version=self.version,
                 assembleConstants=self.assemble_constants,
                 optimize=self.optimize,
+                assembly_type_track=self.assembly_type_track,
             )
 
             _PyTealSourceMapper._validate_teal_identical(
